@@ -42,6 +42,8 @@ INNER = ('MultiConditional', 'MaskedStatement', 'TypeConditional')
 # ------------------------------------------------------------------------------------------------
 
 def setup_worker(tier, ctx):
+    import sys
+    sys.setrecursionlimit(20000)   # hashing a node recurses through its whole subtree and expression trees
     sf = irlab.zoo()
     mod = sf['zoo_mod']
     ctx['zoo_sf'] = sf
@@ -306,6 +308,8 @@ class MaskedRef:
         self.empty_inner = False
         self.scoped_inactive = False
         self.elseif_broken = False
+        self.elseif_dissolved = False
+        self.dissolved = set()
         self.included = 0
 
     def enter(self, n):
@@ -396,11 +400,13 @@ class NestedMaskedRef(MaskedRef):
             body = self.seq(n.body)
             else_body = self.seq(n.else_body)
             if not body:
+                self.dissolved.add(id(n))
                 return else_body
             self.included += 1
-            # has_elseif is only kept if the else body still starts with a conditional
-            first = n.else_body[0] if n.else_body else None
-            has_elseif = bool(n.has_elseif and else_body and irlab.class_of(else_body[0]) == 'Conditional')
+            # ELSE IF form only survives if the else-if conditional itself is still there
+            has_elseif = bool(n.has_elseif and len(else_body) == 1 and id(n.else_body[0]) not in self.dissolved)
+            if n.has_elseif and else_body and id(n.else_body[0]) in self.dissolved:
+                self.elseif_dissolved = True
             return [self.encode(n, {'body': tuple(body), 'else_body': tuple(else_body), 'has_elseif': has_elseif})]
         if isinstance(n, (ir.MultiConditional, ir.TypeConditional)):
             branches = []
@@ -1039,20 +1045,28 @@ def _stop_text(diff):
     return bool(diff) and ('StopStmt[0]/text' in diff or 'ExitStmt[0]/text' in diff or 'root/StopStmt' in diff)
 
 
+def _flat_nodes(value, out):
+    for v in value:
+        if irlab.class_of(v):
+            out.append(dejunk(v))
+        elif isinstance(v, tuple):
+            _flat_nodes(v, out)
+    return out
+
+
 def dejunk(x):
-    """Drop non-node entries (empty / nested empty tuples) from node lists of an s-expression."""
+    """Flatten nested tuples in the node lists of an s-expression (empty ones vanish)."""
     if irlab.class_of(x):
         items = []
         for name, value in x[1]:
             if name in ('body', 'else_body', 'default') and isinstance(value, tuple):
-                value = tuple(dejunk(v) for v in value if irlab.class_of(v))
+                value = tuple(_flat_nodes(value, []))
             elif name == 'bodies' and isinstance(value, tuple):
-                value = tuple(tuple(dejunk(v) for v in b if irlab.class_of(v)) if isinstance(b, tuple) else b
-                              for b in value)
+                value = tuple(tuple(_flat_nodes(b, [])) if isinstance(b, tuple) else b for b in value)
             items.append((name, value))
         return (x[0], tuple(items))
     if isinstance(x, tuple):
-        return tuple(dejunk(v) for v in x if irlab.class_of(v) or not isinstance(v, tuple))
+        return tuple(_flat_nodes(x, []))
     return x
 
 
@@ -1111,6 +1125,9 @@ def run_masked_pair(rng, ctx, tree, kind, res, feats, desc_out):
         return None    # known mechanism (has_elseif not updated by MaskedTransformer): small slice only
     if ref.elseif_broken:
         feats.add('masked_elseif_slice')
+    if ref.elseif_dissolved and rng.random() > 0.15:
+        return None    # known mechanism (has_elseif kept after the ELSE IF conditional was dissolved): small slice
+
     before = irlab.enc(tree, None, with_private=True)
     desc_full = {'transformer': T.__name__, 'opts': opts,
                  'start': [type(n).__name__ for n in start], 'stop': [type(n).__name__ for n in stop],
@@ -1124,7 +1141,11 @@ def run_masked_pair(rng, ctx, tree, kind, res, feats, desc_out):
         result = tr.visit(tree)
     except Exception as e:  # pylint: disable=broad-except
         witness['tree'] = tree_text(tree)
-        if ref.elseif_broken:
+        if ref.elseif_dissolved:
+            viol(res, f'nested-masked:has_elseif-after-dissolved-elseif:raises-{type(e).__name__}',
+                 f'NestedMaskedTransformer replaces an ELSE IF conditional whose body is empty by its else-body but '
+                 f'keeps has_elseif=True on the parent: {str(e)[:200]}', witness)
+        elif ref.elseif_broken:
             viol(res, f'masked:has_elseif-not-updated:raises-{type(e).__name__}',
                  f'{T.__name__} keeps has_elseif=True on an IF whose ELSE IF conditional was masked out and fails '
                  f'in the node constructor: {str(e)[:200]}', witness)
@@ -1145,7 +1166,10 @@ def run_masked_pair(rng, ctx, tree, kind, res, feats, desc_out):
         witness['tree'] = tree_text(tree)
         diff = irlab.first_diff(expected, actual)
         witness['diff'] = diff
-        if scoped_inactive:
+        if ref.elseif_dissolved and 'has_elseif' in str(diff):
+            viol(res, 'nested-masked:has_elseif-after-dissolved-elseif:wrong-result',
+                 f'has_elseif stays True after the ELSE IF conditional was replaced by its else-body: {diff}', witness)
+        elif scoped_inactive:
             viol(res, 'nested-masked:scoped-node-inactive-on-entry:wrong-result',
                  f'scoped node inactive on entry is not retained with its included children: {diff}', witness)
         elif _stop_text(diff):
@@ -1154,8 +1178,9 @@ def run_masked_pair(rng, ctx, tree, kind, res, feats, desc_out):
         elif ref.empty_inner and dejunk(actual) != expected:
             viol(res, f'masked:empty-inner-body-dropped:{_inner_class(diff)}', str(diff), witness)
         elif dejunk(actual) == expected:
-            viol(res, f'masked:empty-tuples-left-in-scoped-body:{T.__name__}',
-                 f'body of an in-place updated scoped node contains empty tuples instead of nodes: {diff}', witness)
+            viol(res, f'masked:tuples-left-in-scoped-body:{T.__name__}',
+                 f'body of an in-place updated scoped node contains (empty or nested) tuples instead of nodes: {diff}',
+                 witness)
         else:
             viol(res, f'masked:result-mismatch:{T.__name__}:{_diff_class(diff)}',
                  f'result differs from documented start/stop semantics: {diff}', witness)
@@ -1203,10 +1228,16 @@ def run_case(idx, rng, tier, ctx):
     for p in range(PAIRS_PER_CASE):
         kind = rng.choice(['T', 'T', 'T', 'T', 'T', 'NT', 'NT', 'MT', 'MT', 'NMT'])
         nv = len(res['violations'])
-        if kind in ('T', 'NT'):
-            r = run_transformer_pair(rng, ctx, tree, kind, res, feats, descs)
-        else:
-            r = run_masked_pair(rng, ctx, tree, kind, res, feats, descs)
+        try:
+            if kind in ('T', 'NT'):
+                r = run_transformer_pair(rng, ctx, tree, kind, res, feats, descs)
+            else:
+                r = run_masked_pair(rng, ctx, tree, kind, res, feats, descs)
+        except RecursionError:
+            import traceback
+            fr = [f'{f.name}:{f.lineno}' for f in traceback.extract_tb(__import__('sys').exc_info()[2])[-12:]]
+            res['inconclusive'] = f'harness recursion idx={idx} pair {p} ({kind}) frames={fr}'
+            break
         if r:
             nontriv += 1
         # one witness per key and case
@@ -1216,9 +1247,9 @@ def run_case(idx, rng, tier, ctx):
             if v['key'] not in seen_keys:
                 seen_keys.add(v['key'])
                 res['violations'].append(v)
-        if any(v['key'].startswith(('transformer:scoped-node-inplace', 'transformer:original-', 'masked:original-'))
-               or ':raises-' in v['key'] or ':exception:' in v['key'] for v in new):
-            # the tree may have been modified by a defect: do not continue on it
+        if any(not v['key'].startswith(('transformer:unchanged-node-source-invalidated',
+                                         'transformer:rebuild-rewraps-literal')) for v in new):
+            # the tree may have been damaged by the defect just seen: do not continue on it
             break
     res['nontrivial'] = nontriv > 0
     res['sig'] = sighash([tree_sig, descs])
